@@ -4,7 +4,7 @@ the list of earlier attempts is rebuilt from /verif/seeded/<id>*/meta.json (firs
 sub-agent gets the property text and these one-paragraph descriptions, nothing else from /verif)."""
 import glob, json, re, sys
 k = int(sys.argv[1])
-words = {2: "One previous attempt", 3: "Two previous attempts", 4: "Three previous attempts", 5: "Four previous attempts", 6: "Five previous attempts", 7: "Six previous attempts", 8: "Seven previous attempts"}
+words = {2: "One previous attempt", 3: "Two previous attempts", 4: "Three previous attempts", 5: "Four previous attempts", 6: "Five previous attempts", 7: "Six previous attempts", 8: "Seven previous attempts", 9: "Eight previous attempts"}
 for i in range(1, 20):
     pid = f"C{i:02d}"
     base = open(f"/tmp/wt/{pid}.prompt4.txt").read()
